@@ -558,18 +558,20 @@ pub fn import_node(i: &ModuleMembersImport) -> Node {
 }
 
 /// Structural dump that ignores locations and comments. Imports are normalised to a map
-/// module -> sorted member set (the documented merge/sort), everything else is order-sensitive.
+/// module -> sorted member multiset (the documented merge/sort), everything else is order-sensitive.
 pub fn dump_module<T: Clone>(heap: &Heap, m: &Module<T>) -> String {
   let mut out = String::new();
-  let mut imports: BTreeMap<String, std::collections::BTreeSet<String>> = BTreeMap::new();
+  // a multiset: a name imported twice is a different (rejected) program than importing it once
+  let mut imports: BTreeMap<String, Vec<String>> = BTreeMap::new();
   for i in &m.imports {
     let e = imports.entry(i.imported_module.pretty_print(heap)).or_default();
     for mem in &i.imported_members {
-      e.insert(mem.name.as_str(heap).to_string());
+      e.push(mem.name.as_str(heap).to_string());
     }
   }
-  for (k, v) in imports {
-    out.push_str(&format!("import {{{}}} from {k}\n", v.into_iter().collect::<Vec<_>>().join(",")));
+  for (k, mut v) in imports {
+    v.sort();
+    out.push_str(&format!("import {{{}}} from {k}\n", v.join(",")));
   }
   for t in &m.toplevels {
     dump_node(heap, &toplevel_node(t), 0, &mut out);
